@@ -66,3 +66,31 @@ func WitnessF16() bool {
 	o := Dispatch(c, Req{Method: "GET", Path: "/w/a\nb/b"})
 	return o.Kind == "err" && o.Code == 404
 }
+
+func twinOutcomes(s Service, req Req) (Outcome, Outcome, bool) {
+	c1, err1 := Build(Config{Router: "curly", Services: []Service{s}})
+	c2, err2 := Build(Config{Router: "jsr", Services: []Service{s}})
+	if err1 != nil || err2 != nil {
+		return Outcome{}, Outcome{}, false
+	}
+	return Dispatch(c1, req), Dispatch(c2, req), true
+}
+
+// WitnessF15: an empty segment: CurlyRouter selects, RouterJSR311 answers 404.
+func WitnessF15() bool {
+	a, b, ok := twinOutcomes(Service{ID: 0, Root: "/w", Routes: []RouteDecl{simpleRoute(0, "GET", "/{x}/b")}}, Req{Method: "GET", Path: "/w//b"})
+	return ok && a.Kind == "sel" && b.Kind == "err" && b.Code == 404
+}
+
+// WitnessF16pair: a newline in a variable segment: CurlyRouter selects, RouterJSR311 answers 404.
+func WitnessF16pair() bool {
+	a, b, ok := twinOutcomes(Service{ID: 0, Root: "/w", Routes: []RouteDecl{simpleRoute(0, "GET", "/{x}/b")}}, Req{Method: "GET", Path: "/w/a\nb/b"})
+	return ok && a.Kind == "sel" && b.Kind == "err" && b.Code == 404
+}
+
+// WitnessF17: the two routers rank same-method candidates differently.
+func WitnessF17() bool {
+	s := Service{ID: 0, Root: "/w", Routes: []RouteDecl{simpleRoute(0, "GET", "/abcdef/{x}/{y}"), simpleRoute(1, "GET", "/{x}/b/c")}}
+	a, b, ok := twinOutcomes(s, Req{Method: "GET", Path: "/w/abcdef/b/c"})
+	return ok && a.Kind == "sel" && b.Kind == "sel" && a.Route != b.Route
+}
